@@ -1,0 +1,9 @@
+//go:build verif
+
+package index
+
+// VerifNextPowerOfTwo exposes the shard-count computation of NewShardedIndex.
+func VerifNextPowerOfTwo(n int) int { return nextPowerOfTwo(n) }
+
+// VerifShardCount reports the number of shards of the index.
+func (s *ShardedIndex) VerifShardCount() int { return len(s.index) }
